@@ -1,13 +1,14 @@
 ----------------------------- MODULE Pipeline2MC -----------------------------
-(* Bounded universe for Pipeline2: 2 packages (+ one for the unrelated extra input), objects A/B (+ C by collision), *)
+(* Bounded universe for Pipeline2: 2 packages (+ two for the unrelated extra input), objects A/B (+ C by collision), *)
 (* 3 object shapes, <= 2 inputs, 2 languages, <= 2 keys per map site except interpolate/consolidate (<= 3).          *)
 EXTENDS Pipeline2
 
 CONSTANTS Universe,        \* 0: full, 1: small, 2: the part that matters for order-sensitivity (witness generation)
           Slice, NSlices   \* the quick tier checks one slice of the configurations (chosen by VERIF_SEED)
 
-MCRank == [x \in {"a", "b", "pa", "pb", "p", "q", "r", "k1", "k2", "go", "ts", "kind", "type", "t1", "t2"} |->
-             CASE x \in {"a", "pa", "p", "k1", "go", "kind", "t1"} -> 1
+MCRank == [x \in {"a", "b", "pa", "pb", "o", "p", "q", "r", "k1", "k2", "go", "ts", "kind", "type", "t1", "t2"} |->
+             CASE x = "o" -> 0
+               [] x \in {"a", "pa", "p", "k1", "go", "kind", "t1"} -> 1
                [] x \in {"b", "pb", "q", "k2", "ts", "type", "t2"} -> 2
                [] OTHER -> 3]
 
@@ -19,7 +20,9 @@ ObjMaps == CASE Universe = 0 -> {("A" :> a) : a \in {X, Y, C2}} \cup {("B" :> X)
              [] OTHER        -> {("A" :> a) : a \in {X, C2}}
 Inputs1 == [pkg : {"p", "q"}, objs : ObjMaps, coll : {FALSE}] \cup {[pkg |-> "p", objs |-> ("A" :> X), coll |-> TRUE]}
 MCInputSeqs == {<<i>> : i \in Inputs1} \cup {<<i, j>> : i \in Inputs1, j \in Inputs1}
-MCExtra == [pkg |-> "r", objs |-> ("A" :> Y), coll |-> FALSE]
+\* the unrelated package: "r" is ordered after p and q, "o" before them (Consolidate orders packages by name); both define an
+\* object A, like the packages that stay
+MCExtra == {[pkg |-> "r", objs |-> ("A" :> Y), coll |-> FALSE], [pkg |-> "o", objs |-> ("A" :> Y), coll |-> FALSE]}
 
 K1 == [key |-> "k1", val |-> "v1"]
 K2 == [key |-> "k2", val |-> "v2"]
